@@ -239,7 +239,7 @@ pub fn get_fd_from_file(file_name: &str) -> i32 {
 }
 
 pub fn escape_path(path: &str) -> String {
-    let re = Regex::new(r##"(?P<c>[!\(\)<>,\?\]\[\{\} \\'"`*\^#|$&;])"##).unwrap();
+    let re = Regex::new(r##"(?P<c>[!\(\)<>,\?\]\[\{\} \\'"`*\^#|$&;~])"##).unwrap();
     return re.replace_all(path, "\\$c").to_string();
 }
 
